@@ -511,6 +511,15 @@ def misc_cases(rng):
     yield 'toDict-value', '$c.toDict($ mod 3, $ * 2)', v, lambda: {x % 3: x * 2 for x in lst}, False
     yield 'member-projection', '$c.select({a => $, b => [{a => $ + 1}]}).a', v, lambda: list(lst), False
     yield 'member-projection-nested', '$c.select({b => [{a => $ + 1}, {a => 0}]}).b.a', v, lambda: [[x + 1, 0] for x in lst], False
+    # flatten: the same sub-collection (one object, or equal ones) may occur several times and at several depths
+    shared = [k, k + 1]
+    hv = {'h': [shared, [shared, 3], shared, [], [[]], ()], 'c': tuple(lst)}
+    yield 'flatten-shared-host-sublist', '$h.flatten()', hv, lambda: shared + shared + [3] + shared, False
+    yield 'flatten-empty-twice', '[[], %d, [], [[]]].flatten()' % k, v, lambda: [k], False
+    yield 'flatten-equal-literals', '[[%d], [%d], [[%d]]].flatten()' % (k, k, k), v, lambda: [k, k, k], False
+    yield 'flatten-variable-twice', 'let(x => [1, %d]) -> [$x, [$x, 3], $x].flatten()' % k, v, lambda: [1, k, 1, k, 3, 1, k], False
+    yield 'flatten-elements-twice', '[$c, [$c], $c].flatten()', v, lambda: lst * 3, False
+    yield 'flatten-deep', '[[[[%d]]], [[2]], 3].flatten()' % k, v, lambda: [k, 2, 3], False
 
 
 def _err():
